@@ -36,6 +36,10 @@ def _target_ops(names, js=(1, 2), tools=True):
                 ops.append(op)
         ops.append(tool_op("readonly", ["-t", "graph"]))
         ops.append(tool_op("readonly", ["-t", "targets", "all"]))
+        ops.append(tool_op("readonly", ["-t", "targets", "depth", "0"]))
+        ops.append(tool_op("readonly", ["-t", "targets", "depth", "3"]))
+        ops.append(tool_op("missingdeps", ["-t", "missingdeps"]))
+        ops.append(tool_op("deps", ["-t", "deps"]))
     return ops
 
 
@@ -106,6 +110,27 @@ def templates(tier="quick"):
     stm2 = [Stmt("dd", ex=["dd.in"], copy=True), Stmt("out", ex=["in"], oo=["dd"], dyndep="dd", extra_reads=["extra"]),
             Stmt("extra", ex=["s"]), Stmt("after", ex=["out"])]
     add("dyndep_acyclic", [Variant("v0", stm2)], ["out", "after"], files={"dd.in": dd2})
+
+    # dyndep-closed cycle discovered when a *phony* statement completes: the dyndep file is up to date but its
+    # producer waits, order-only, on a phony alias of something dirty; finishing the alias loads the file
+    def stm4(circ_in):
+        return [Stmt("prep", ex=["p.in"]), Stmt("al", ex=["prep"], phony=True), Stmt("dd", ex=["dd.in"], oo=["al"], copy=True),
+                Stmt("out", ex=["in"], oo=["dd"], dyndep="dd", extra_reads=["circ"]), Stmt("circ", ex=[circ_in])]
+    ops4 = [ninja_op(j=1), {"op": "variant", "to": 1, "label": "manifest:=v1 (circ now produced from out)"},
+            {"op": "rm", "path": "prep", "label": "rm prep"}, {"op": "edit", "path": "p.in", "label": "edit p.in"}]
+    # a first build of the acyclic variant records dd as up to date; then the manifest closes the cycle and the alias gets work
+    add("dyndep_cycle_after_phony", [Variant("v0", stm4("s")), Variant("v1", stm4("out"))], ["out", "circ"], files={"dd.in": dd},
+        extra_ops=ops4, init=[0, 1], depth=2, tags=["dyndep", "phony"])
+    # cycle closed by a recorded dependency of a statement that also has implicit inputs of its own in the manifest
+    for kind, kw in (("gcc", {"deps": "gcc"}), ("msvc", {"deps": "msvc"}), ("depfile", {"depfile": True})):
+        for nimp in (1, 2):
+            imps = ["cfg%d.h" % i for i in range(nimp)]
+            v0 = Variant("v0", [Stmt("obj", ex=["src"], im=imps, hidden=["hdr"], **kw), Stmt("exe", ex=["obj"])])
+            v1 = Variant("v1", [Stmt("obj", ex=["src"], im=imps, hidden=["hdr"], **kw), Stmt("exe", ex=["obj"]), Stmt("hdr", ex=["obj"])])
+            ops5 = [ninja_op(j=1), {"op": "variant", "to": 1, "label": "manifest:=v1 (hdr now produced from obj)"},
+                    {"op": "edit", "path": "src", "label": "edit src"}]
+            add("discovered_%s_with_%d_implicit" % (kind, nimp), [v0, v1], ["obj", "exe", "hdr"], extra_ops=ops5, init=[0, 1], depth=2,
+                tags=["discovered"])
 
     # dyndep-closed cycle through an implicit OUTPUT: out gains output circ, and out's own input depends on circ
     dd3 = dyndep_text([("out", ["circ"], [], False)])
